@@ -38,7 +38,7 @@ class C05(Check):
         "up to 3 stray bytes after a raw deflate stream are tolerated and counted (zlib trailer remnant left by fastavro and Apache Python)",
         "codecs limited to null/deflate/bzip2/xz (others not importable here)",
     ]
-    required_labels = ["kind:fa2ref", "kind:ref2fa", "kind:isavro", "kind:fixture", "fa2ref:appended", "ref2fa:empty-block", "ref2fa:chunked-header", "ref2fa:no-codec-key", "fa2ref:blocks>=2", "isavro:true", "isavro:false", "isavro:short"]
+    required_labels = ["kind:fa2ref", "kind:ref2fa", "kind:isavro", "kind:fixture", "fa2ref:appended", "fa2ref:append-after-looking-at-the-file", "ref2fa:empty-block", "ref2fa:chunked-header", "ref2fa:no-codec-key", "fa2ref:blocks>=2", "isavro:true", "isavro:false", "isavro:short"]
     quick = (1500, 1)
     thorough = (3000, 16)
 
@@ -189,7 +189,13 @@ class C05(Check):
             cut = min(case["append_at"], len(case["records"]))
             labels.add("fa2ref:appended")
             guard("write-container", fastavro.writer, fo, schema, case["records"][:cut], **kw)
-            fo.seek(0, 2)
+            if case["sync_interval2"] % 3 == 0:
+                # the caller inspected the file before appending: the stream stands behind the header, not at the end
+                fo.seek(0)
+                guard("read-own-file", lambda: fastavro.reader(fo).writer_schema)
+                labels.add("fa2ref:append-after-looking-at-the-file")
+            else:
+                fo.seek(0, 2)
             kw2 = {"codec": case["codec2"], "sync_interval": case["sync_interval2"], "metadata": {"late": "ignored"}}
             guard("append-through-writer-function", fastavro.writer, fo, None if case["append_schema"] == "none" else schema, case["records"][cut:], **kw2)
         else:
